@@ -77,6 +77,7 @@ func init() {
 		}
 		return nil
 	})
+	var orName string
 	orLike := func(a []*T) *T {
 		if isZero(a[0]) {
 			return a[1]
@@ -86,8 +87,36 @@ func init() {
 		}
 		return nil
 	}
-	term.AppHook["bor"] = wrap(fold(func(a, b *big.Int) *big.Int { return new(big.Int).Or(a, b) }), orLike)
-	term.AppHook["bxor"] = wrap(fold(func(a, b *big.Int) *big.Int { return new(big.Int).Xor(a, b) }), orLike)
+	// x op ite(c, m, 0) = ite(c, x op m, x): the neutral element is only visible inside the branch
+	distr := func(name string) func(a []*T) *T {
+		return func(a []*T) *T {
+			for k := 0; k < 2; k++ {
+				it := a[k]
+				if it.Op != term.OIte {
+					continue
+				}
+				if isZero(it.Args[1]) || isZero(it.Args[2]) {
+					o := a[1-k]
+					f := term.FunDecl[name]
+					l, r := term.AppH(f, o, it.Args[1]), term.AppH(f, o, it.Args[2])
+					return term.Ite(it.Args[0], l, r)
+				}
+			}
+			return nil
+		}
+	}
+	_ = orName
+	orWith := func(name string) func(a []*T) *T {
+		d := distr(name)
+		return func(a []*T) *T {
+			if r := orLike(a); r != nil {
+				return r
+			}
+			return d(a)
+		}
+	}
+	term.AppHook["bor"] = wrap(fold(func(a, b *big.Int) *big.Int { return new(big.Int).Or(a, b) }), orWith("bor"))
+	term.AppHook["bxor"] = wrap(fold(func(a, b *big.Int) *big.Int { return new(big.Int).Xor(a, b) }), orWith("bxor"))
 	shiftLike := func(a []*T) *T {
 		if isZero(a[0]) {
 			return term.I(0)
